@@ -7,6 +7,7 @@ import Labella.Proofs.VpscKKT
 import Labella.Proofs.VpscFuel
 import Labella.Proofs.VpscResolve
 import Labella.Proofs.VpscPath
+import Labella.Proofs.VpscPathOpt
 import Mathlib.Algebra.Order.Field.Rat
 import Mathlib.Algebra.BigOperators.Group.List.Basic
 import Mathlib.Tactic.Ring
@@ -596,6 +597,85 @@ example :
     ([((0 : Rat), (1000000 : Rat), (1 : Rat)), (1, 1, 1), (1, 1, 1), (2, 1, 1)] : List (Rat × Rat × Rat)).length < 5 ∧
     (Vpsc.solve 10 5 (Vpsc.init [(0, 1000000, 1), (1, 1, 1), (1, 1, 1), (2, 1, 1)] [(0, 1, 3), (1, 2, 3), (2, 3, 3)])).1.err = false ∧
     (Vpsc.solve 10 1 (Vpsc.init [(0, 1000000, 1), (1, 1, 1), (1, 1, 1), (2, 1, 1)] [(0, 1, 3), (1, 2, 3), (2, 3, 3)])).1.err = true := by
+  decide +kernel
+
+
+/-! ## the instances `removeOverlap` builds (paths, unit scales): `solve` terminates and is optimal — unconditionally
+
+On a path every step of the first `satisfy` pass merges two neighbouring blocks across a VIOLATED constraint; the merged block settles
+between where its two halves stood, so the left half moves left and the right half moves right, which can only raise the multipliers of the
+constraints inside either half, and the multiplier of the joining constraint is ≥ 0 (pool-adjacent-violators: a pooling step is never
+regretted).  Hence after the first pass every multiplier is ≥ 0: the state is the optimum, the split pass of the second `satisfy` finds nothing to
+split, nothing is violated, the cost does not change, and `solve` returns after exactly two passes. -/
+
+/-- after the first `satisfy` pass from the solver's initial state no active constraint carries a negative multiplier -/
+theorem path_first_pass_multipliers_nonneg (vars : List (Rat × Rat × Rat)) (cons : List (Nat × Nat × Rat))
+    (hidx : ∀ c ∈ cons, c.1 < vars.length ∧ c.2.1 < vars.length) (hw : ∀ v ∈ vars, 0 < v.2.1) (hsc : ∀ v ∈ vars, v.2.2 = 1)
+    (hpath : ∀ c ∈ cons, c.2.1 = c.1 + 1) (hnd : (cons.map (·.1)).Nodup) (sfuel : Nat) (hf : vars.length < sfuel) :
+    (Vpsc.satisfy sfuel (Vpsc.init vars cons)).err = false ∧
+    (Vpsc.lmState (Vpsc.satisfy sfuel (Vpsc.init vars cons))).err = false ∧
+    ∀ l ∈ Vpsc.multipliers (Vpsc.satisfy sfuel (Vpsc.init vars cons)), 0 ≤ l := by
+  have P := Vpsc.init_pstate vars cons hidx hw hsc hpath hnd
+  have hs : ∀ v ∈ vars, v.2.2 ≠ 0 := fun v hv => by rw [hsc v hv]; exact one_ne_zero
+  have hvs : (Vpsc.init vars cons).vs.size = vars.length := (Vpsc.init_inv vars cons hidx hs).2.2.2.1
+  obtain ⟨P1, _, _⟩ := Vpsc.satisfy_pstate P sfuel (by rw [hvs]; exact hf)
+  exact ⟨P1.err, Vpsc.pstate_multipliers_nonneg P1⟩
+
+/-- **termination, unconditionally, for the instances `removeOverlap` builds**: with loop fuels 2 (outer) and more than the number of
+variables (inner) `solve` finishes — and by `vpsc_solve_fuel_immaterial` any larger fuels give the very same result -/
+theorem path_solve_terminates (vars : List (Rat × Rat × Rat)) (cons : List (Nat × Nat × Rat))
+    (hidx : ∀ c ∈ cons, c.1 < vars.length ∧ c.2.1 < vars.length) (hw : ∀ v ∈ vars, 0 < v.2.1) (hsc : ∀ v ∈ vars, v.2.2 = 1)
+    (hpath : ∀ c ∈ cons, c.2.1 = c.1 + 1) (hnd : (cons.map (·.1)).Nodup) (fuel sfuel : Nat) (hfuel : 2 ≤ fuel)
+    (hf : vars.length < sfuel) :
+    (Vpsc.solve fuel sfuel (Vpsc.init vars cons)).1.err = false := by
+  have P := Vpsc.init_pstate vars cons hidx hw hsc hpath hnd
+  have hs : ∀ v ∈ vars, v.2.2 ≠ 0 := fun v hv => by rw [hsc v hv]; exact one_ne_zero
+  have hvs : (Vpsc.init vars cons).vs.size = vars.length := (Vpsc.init_inv vars cons hidx hs).2.2.2.1
+  exact (Vpsc.solve_pstate P fuel sfuel hfuel (by rw [hvs]; exact hf)).1.err
+
+/-- **C05 / C02 for the instances `removeOverlap` builds, unconditionally**: the positions `solve` returns minimise the weighted squared
+displacement among ALL placements that satisfy every constraint (no hypothesis about multipliers, none about `err`) -/
+theorem path_solve_optimal (vars : List (Rat × Rat × Rat)) (cons : List (Nat × Nat × Rat))
+    (hidx : ∀ c ∈ cons, c.1 < vars.length ∧ c.2.1 < vars.length) (hw : ∀ v ∈ vars, 0 < v.2.1) (hsc : ∀ v ∈ vars, v.2.2 = 1)
+    (hpath : ∀ c ∈ cons, c.2.1 = c.1 + 1) (hnd : (cons.map (·.1)).Nodup) (fuel sfuel : Nat) (hfuel : 2 ≤ fuel)
+    (hf : vars.length < sfuel)
+    (z : List Rat) (hz : z.length = vars.length) (hfeas : Feasible (qpInst vars cons) z) :
+    cost (qpInst vars cons) (Vpsc.positions (Vpsc.solve fuel sfuel (Vpsc.init vars cons)).1) ≤ cost (qpInst vars cons) z := by
+  have P := Vpsc.init_pstate vars cons hidx hw hsc hpath hnd
+  have hs : ∀ v ∈ vars, v.2.2 ≠ 0 := fun v hv => by rw [hsc v hv]; exact one_ne_zero
+  have hvs : (Vpsc.init vars cons).vs.size = vars.length := (Vpsc.init_inv vars cons hidx hs).2.2.2.1
+  have PS := (Vpsc.solve_pstate P fuel sfuel hfuel (by rw [hvs]; exact hf)).1
+  obtain ⟨m1, m2⟩ := Vpsc.pstate_multipliers_nonneg PS
+  exact vpsc_solve_optimal vars cons hidx hs hw fuel sfuel PS.err m1 m2 z hz hfeas
+
+/-- non-vacuity of the three theorems: a wall-like heavy first variable (weight 10¹⁰, wanted at 0) followed by four labels wanted at 1, 1, 2, 20 with gaps 3
+between neighbours.  The hypotheses `hidx`, `hw`, `hsc`, `hpath`, `hnd`, `2 ≤ fuel`, `vars.length < sfuel` hold; the first pass performs three merges
+(the first three constraints end active, the last one stays slack); `solve 2 6` ends with `err = false` at the positions shown (the wall gives way by
+2 / 1428571429); the multipliers are 40000000000/1428571429, 34285714288/1428571429, 20000000002/1428571429, 0 — none negative; with outer fuel 1 the
+loop of `solve` is cut off, so `2 ≤ fuel` is not idle -/
+example :
+    (∀ c ∈ [(0, 1, (3 : Rat)), (1, 2, 3), (2, 3, 3), (3, 4, 3)], c.1 < 5 ∧ c.2.1 < 5) ∧
+    (∀ v ∈ [((0 : Rat), (10000000000 : Rat), (1 : Rat)), (1, 1, 1), (1, 1, 1), (2, 1, 1), (20, 1, 1)], 0 < v.2.1) ∧
+    (∀ v ∈ [((0 : Rat), (10000000000 : Rat), (1 : Rat)), (1, 1, 1), (1, 1, 1), (2, 1, 1), (20, 1, 1)], v.2.2 = 1) ∧
+    (∀ c ∈ [(0, 1, (3 : Rat)), (1, 2, 3), (2, 3, 3), (3, 4, 3)], c.2.1 = c.1 + 1) ∧
+    (([(0, 1, (3 : Rat)), (1, 2, 3), (2, 3, 3), (3, 4, 3)] : List (Nat × Nat × Rat)).map (·.1)).Nodup ∧
+    2 ≤ 2 ∧
+    ([((0 : Rat), (10000000000 : Rat), (1 : Rat)), (1, 1, 1), (1, 1, 1), (2, 1, 1), (20, 1, 1)] : List (Rat × Rat × Rat)).length < 6 ∧
+    (Vpsc.solve 2 6 (Vpsc.init [(0, 10000000000, 1), (1, 1, 1), (1, 1, 1), (2, 1, 1), (20, 1, 1)]
+      [(0, 1, 3), (1, 2, 3), (2, 3, 3), (3, 4, 3)])).1.err = false ∧
+    Vpsc.positions (Vpsc.solve 2 6 (Vpsc.init [(0, 10000000000, 1), (1, 1, 1), (1, 1, 1), (2, 1, 1), (20, 1, 1)]
+      [(0, 1, 3), (1, 2, 3), (2, 3, 3), (3, 4, 3)])).1 =
+      [-2 / 1428571429, 4285714285 / 1428571429, 8571428572 / 1428571429, 12857142859 / 1428571429, 20] ∧
+    ((List.range 4).map fun c => (Vpsc.getC (Vpsc.solve 2 6 (Vpsc.init [(0, 10000000000, 1), (1, 1, 1), (1, 1, 1), (2, 1, 1), (20, 1, 1)]
+      [(0, 1, 3), (1, 2, 3), (2, 3, 3), (3, 4, 3)])).1 c).active) = [true, true, true, false] ∧
+    Vpsc.multipliers (Vpsc.satisfy 6 (Vpsc.init [(0, 10000000000, 1), (1, 1, 1), (1, 1, 1), (2, 1, 1), (20, 1, 1)]
+      [(0, 1, 3), (1, 2, 3), (2, 3, 3), (3, 4, 3)])) =
+      [40000000000 / 1428571429, 34285714288 / 1428571429, 20000000002 / 1428571429, 0] ∧
+    Vpsc.multipliers (Vpsc.solve 2 6 (Vpsc.init [(0, 10000000000, 1), (1, 1, 1), (1, 1, 1), (2, 1, 1), (20, 1, 1)]
+      [(0, 1, 3), (1, 2, 3), (2, 3, 3), (3, 4, 3)])).1 =
+      [40000000000 / 1428571429, 34285714288 / 1428571429, 20000000002 / 1428571429, 0] ∧
+    (Vpsc.solve 1 6 (Vpsc.init [(0, 10000000000, 1), (1, 1, 1), (1, 1, 1), (2, 1, 1), (20, 1, 1)]
+      [(0, 1, 3), (1, 2, 3), (2, 3, 3), (3, 4, 3)])).1.err = true := by
   decide +kernel
 
 end Labella.C05
